@@ -11,7 +11,7 @@ import warnings
 warnings.filterwarnings('ignore')
 import pandas as pd
 
-from common import ts, secs, run_driver_json, Tally, rng_for
+from common import ts, secs, run_driver_json, Tally, rng_for, ts_in, ZONES
 
 from qstrader.exchange.simulated_exchange import SimulatedExchange
 from qstrader.simulation.daily_bday import DailyBusinessDaySimulationEngine
@@ -80,7 +80,7 @@ def gen_case0(rng, prop):
     if prop == 'C04':
         d = rng.randrange(366, 47482)
         tod = rng.choice([OPEN - 1, OPEN, OPEN + 1, CLOSE - 1, CLOSE, CLOSE + 1, 0, 86399, rng.randrange(0, 86400)])
-        return dict(kind='isopen', t=d * 86400 + tod)
+        return dict(kind='isopen', t=d * 86400 + tod, zone=(rng.choice(ZONES) if rng.random() < 0.3 else None))
     # C13
     s, e = gen_range(rng)
     pre = rng.random() < 0.3
@@ -118,7 +118,7 @@ def execute(case):
         elif k == 'bh':
             r = BuyAndHoldRebalance(ts(case['start']))
         elif k == 'isopen':
-            return dict(out='ok', open=bool(SimulatedExchange(None).is_open_at_datetime(ts(case['t']))))
+            return dict(out='ok', open=bool(SimulatedExchange(None).is_open_at_datetime(ts_in(case['t'], case.get('zone')))))
         elif k == 'civil':
             rows = []
             for d in range(case['lo'], case['lo'] + case['n']):
